@@ -142,7 +142,7 @@ class UnifiedRTFEncoder(EncodingStrategy):
 
         # Post-pagination fixup
         if is_single_body(rtf_body):
-            self._apply_data_post_processing(pages, processed_df, rtf_body)
+            self._apply_data_post_processing(pages, processed_df, rtf_body, original_df)
 
         # E. Process & Render Pages
         section_rtf_chunks = []
@@ -214,7 +214,9 @@ class UnifiedRTFEncoder(EncodingStrategy):
 
         return result
 
-    def _apply_data_post_processing(self, pages, processed_df, rtf_body):
+    def _apply_data_post_processing(
+        self, pages, processed_df, rtf_body, original_df=None
+    ):
         """Sync page data with processed dataframe and handle group_by restoration."""
         # 1. Replace data slices
         # We assume the pagination strategy preserved the row order and counts
@@ -245,10 +247,25 @@ class UnifiedRTFEncoder(EncodingStrategy):
 
             full_df = processed_df
 
+            # A group_by column that page_by/subline_by removed from the display
+            # still takes part in the hierarchical key: evaluate the suppression
+            # with it, then keep the displayed columns only.
+            hidden = [
+                col
+                for col in rtf_body.group_by
+                if col not in full_df.columns
+                and isinstance(original_df, pl.DataFrame)
+                and col in original_df.columns
+            ]
+            if hidden:
+                full_df = full_df.with_columns([original_df[col] for col in hidden])
+
             suppressed = grouping_service.enhance_group_by(full_df, rtf_body.group_by)
             restored = grouping_service.restore_page_context(
                 suppressed, full_df, rtf_body.group_by, page_start_indices
             )
+            if hidden:
+                restored = restored.select(processed_df.columns)
 
             curr = 0
             for p in pages:
